@@ -477,6 +477,19 @@ func c08(r *core.Report) {
 	}
 
 	// ---- possibly-nil module results
+	// ---- C08-SESSION-STATE (typestate, shared with C06-NO-PANIC): a packet is not only bytes but also
+	// a handshake message arriving in a state that does not expect it; no Deliver/Send/Handshake
+	// transition from a reachable session state panics (a method call on a cipher that is not keyed yet,
+	// an index of an unset cached message)
+	r.Rule("C08-SESSION-STATE", "no session transition from a reachable state panics, whatever message class arrives", 1)
+	if ts := buildTypestate(r); ts != nil {
+		if ts.err != nil {
+			r.Fail("typestate extraction failed: %v", ts.err)
+		} else {
+			ts.checkNoPanic("C08-SESSION-STATE")
+		}
+	}
+
 	r.Rule("C08-NIL", "results of module functions that can return nil are not dereferenced unchecked on packet paths", 1)
 	nn := core.NewNonNil(p)
 	nilRet := map[*ssa.Function]map[int]bool{}
